@@ -309,7 +309,9 @@ func wxPool(i int) []afmcodec.Num  { return ints(500+100*i, 0, 1, -1, 1000, 3276
 func adjPool(i int) []afmcodec.Num { return ints(adjBase[i%3], 0, 1, -1, 32767, -32768) }
 func bPool(i, k int) []afmcodec.Num {
 	base := []int{10 + i, -20 - i, 400 + 10*i, 700 + 5*i}[k]
-	return ints(base, 0, 1, -1, -250, 32767, -32768, 100000, -2147483649)
+	// (the last value makes the box flat: URx = LLx, URy = LLy, and the other way round)
+	flat := []int{400 + 10*i, 700 + 5*i, 10 + i, -20 - i}[k]
+	return ints(base, 0, 1, -1, -250, 32767, -32768, 100000, -2147483649, flat)
 }
 
 // dev routes every deviation point of a body.  With first < 0 it is plain
@@ -837,11 +839,11 @@ func sizesFamily(budget time.Duration) mc.Family {
 		return sb.String()[:n-1] + "x"
 	}
 	var cases []cse
-	for _, n := range []int{255, 256, 1000, 4000, 4080, 4088, 4089, 4090, 4095, 4096, 4097, 4100, 5000, 8191, 8192, 8193, 20000, 60000} {
+	for _, n := range []int{255, 256, 1000, 4000, 4080, 4088, 4089, 4090, 4095, 4096, 4097, 4100, 5000, 8191, 8192, 8193, 20000, 60000, 65520, 65530, 65536, 65537, 70000, 200000} {
 		n := n
 		cases = append(cases, cse{fmt.Sprintf("Notice of %d bytes", n), func() *afm.Metrics { m := base(); m.Notice = words(n); return m }})
 	}
-	for _, n := range []int{4090, 4097, 30000} {
+	for _, n := range []int{4090, 4097, 30000, 70000} {
 		n := n
 		cases = append(cases, cse{fmt.Sprintf("FullName of %d bytes", n), func() *afm.Metrics { m := base(); m.FullName = words(n); return m }})
 		cases = append(cases, cse{fmt.Sprintf("FontName of %d bytes", n), func() *afm.Metrics { m := base(); m.FontName = strings.Repeat("N", n); return m }})
@@ -851,7 +853,7 @@ func sizesFamily(budget time.Duration) mc.Family {
 			return m
 		}})
 	}
-	for _, n := range []int{10, 100, 250, 300, 400, 1000, 3000} {
+	for _, n := range []int{10, 100, 250, 300, 400, 1000, 3000, 9000} {
 		n := n
 		cases = append(cases, cse{fmt.Sprintf("glyph with %d ligatures", n), func() *afm.Metrics {
 			m := base()
@@ -885,7 +887,7 @@ func sizesFamily(budget time.Duration) mc.Family {
 	_ = nSize
 	return mc.Family{
 		Name: "sizes-and-precision", Items: len(cases) + len(histCases), Budget: budget,
-		Rule: fmt.Sprintf("%d metrics values written and re-read by the library: Notice of 255..60000 bytes (every length around 4096 and 8192), FullName / FontName / a glyph name of 4090, 4097, 30000 bytes, one glyph with 10..3000 ligatures (one line each), 300 and 5000 glyphs with twice as many kerning pairs, ItalicAngle over 13 values that need up to 17 significant digits; oracle: deep-equal metrics after one cycle, byte-identical file after a second; plus %d history cases: a write that follows a write which failed after 0, 40, 200 or 1000 bytes gives the same bytes as without it, and a value returned by Read may be overwritten by the caller (encoding, glyph map, kerning list) without changing what later Read calls return (files with every glyph unencoded, none unencoded, no glyphs); non-trivial = all", len(cases), len(histCases)),
+		Rule: fmt.Sprintf("%d metrics values written and re-read by the library: Notice of 255..200000 bytes (every length around 4096, 8192 and 65536), FullName / FontName / a glyph name of 4090, 4097, 30000, 70000 bytes, one glyph with 10..9000 ligatures (one line of up to 100 KiB each), 300 and 5000 glyphs with twice as many kerning pairs, ItalicAngle over 13 values that need up to 17 significant digits; oracle: deep-equal metrics after one cycle, byte-identical file after a second; plus %d history cases: a write that follows a write which failed after 0, 40, 200 or 1000 bytes gives the same bytes as without it, and a value returned by Read may be overwritten by the caller (encoding, glyph map, kerning list) without changing what later Read calls return (files with every glyph unencoded, none unencoded, no glyphs); non-trivial = all", len(cases), len(histCases)),
 		Body: func(c *mc.Ctx, item int) mc.Verdict {
 			if item >= len(cases) {
 				h := histCases[item-len(cases)]
